@@ -126,6 +126,17 @@ def gen_group(rng, quick):
     return fits
 
 
+def witness_group():
+    """the vm_compute witness of Findings/F15_dch_below_mask.v replayed on the implementation:
+    V-shaped hull through (x,y) = (-1,1), (0,0), (1,1); the query (1/2, -1/2) is 1 below the
+    surface and on the extension of the left facet's plane."""
+    P = [[1, -1], [0, 0], [1, 1]]
+    q = [dict(pos=[0.5], y=-0.5, kind="below_on_plane", hd=[]),
+         dict(pos=[0.5], y=2.0, kind="above", hd=[]), dict(pos=[0.25], y=-0.5, kind="below", hd=[])]
+    return [dict(variant="base", d=1, n=3, h=0, low=[0], nfeat=1, P=P, hd=[[], [], []], tol=None,
+                 ykind="witness", queries=q, rejected=0)]
+
+
 def case_arrays(case):
     X = H.build_X(case["P"], case["low"], case["nfeat"], case["hd"])
     y = [p[0] for p in case["P"]]
@@ -190,8 +201,10 @@ def oracle_fit(case, rec):
                 return "query %s above the surface has distance %g" % (q, dist), None
         elif off < -max(MARGIN, 10 * tol, 100 * noise):
             if not dist < -tol:
+                # F15: a facet distance that rounds to (-tol, 0] survives the mask as found
+                key = KEY_F15 if dist <= 100 * noise else None
                 return ("query %s is %g below the surface but its distance %g is not below -tolerance"
-                        % (q, float(-off), dist)), KEY_F15
+                        % (q, float(-off), dist)), key
     return None, None
 
 
@@ -225,6 +238,27 @@ def qpoints(case, qrows):
     return [[yy] + [r[c] for c in case["low"]] for r, yy in qrows]
 
 
+def ill_conditioned(case, rec, qrows):
+    """queries whose reported value depends on rounding: the query is clearly below the hull
+    through one facet (d < -tol - noise) while another facet's distance is within the noise of
+    -tol, so whether that facet survives the mask `>= -tol` -- and hence whether the maximum is
+    about -tol or the next violated facet -- is decided by the last bits.  noise = 8 x 2^-53 x
+    (sum |n_c p_c| + |b|) / |n_y| per (point, facet).  Left out of (D) and counted."""
+    if not qrows:
+        return []
+    eq = np.array(rec["eq"], dtype=float)
+    lowf = np.where(eq[:, 0] < 0)[0]
+    pts = np.array(qpoints(case, qrows), dtype=float)
+    ny = eq[lowf, 0][None, :]
+    dd = (pts @ eq[lowf, :-1].T + eq[lowf, -1][None, :]) / ny
+    mag = (np.abs(pts) @ np.abs(eq[lowf, :-1]).T + np.abs(eq[lowf, -1])[None, :]) / np.abs(ny)
+    noise = 8 * 2.0 ** -53 * mag
+    tol = rec["tol"]
+    clearly_below = np.any(dd < -tol - noise, axis=1)
+    uncertain = np.any(np.abs(dd + tol) <= noise, axis=1)
+    return list(clearly_below & uncertain)
+
+
 def case_coq(case, rec, with_found):
     """verdicts for one fit: (M), (S), (C), then (D) one per point after a shape check, then
     optionally (D') with the mask as found (informational)."""
@@ -238,14 +272,18 @@ def case_coq(case, rec, with_found):
         out.append("chain_case_ok LOW XZ YZ %s SEL" % C.natlist(perm))
     else:
         out.append("true")
-    # (D): all training samples (a fixed-size subsample when n > 40) and all queries
+    # (D): all training samples (a fixed-size subsample when n > 40) and all queries, except
+    # queries whose value depends on rounding (see ill_conditioned)
     sub = list(range(n)) if n <= 40 else sorted(case["dsub"])
-    obs = [rec["dist"][i] for i in sub] + list(rec["qdist"])
+    ill = ill_conditioned(case, rec, qrows)
+    qkeep = [k for k in range(len(qrows)) if not ill[k]]
+    qrows_k = [qrows[k] for k in qkeep]
+    obs = [rec["dist"][i] for i in sub] + [rec["qdist"][k] for k in qkeep]
     if n <= 40:
-        xs, ys = "(zqm XZ ++ %s)" % H.qmat([r for r, _ in qrows]), "(zq YZ ++ %s)" % H.qlist([yy for _, yy in qrows])
+        xs, ys = "(zqm XZ ++ %s)" % H.qmat([r for r, _ in qrows_k]), "(zq YZ ++ %s)" % H.qlist([yy for _, yy in qrows_k])
     else:
-        xs = H.qmat([[float(v) for v in X[i]] for i in sub] + [r for r, _ in qrows])
-        ys = H.qlist([float(y[i]) for i in sub] + [yy for _, yy in qrows])
+        xs = H.qmat([[float(v) for v in X[i]] for i in sub] + [r for r, _ in qrows_k])
+        ys = H.qlist([float(y[i]) for i in sub] + [yy for _, yy in qrows_k])
     # absolute tolerance 1e-10 x the largest magnitude entering a facet distance (binary64 noise
     # is ~1e-16 x that); the below/above logic with the repaired mask is continuous at -tol, so
     # a decision flipped by rounding changes the value by at most the noise
@@ -257,7 +295,7 @@ def case_coq(case, rec, with_found):
                H.facets_lit(rec), C.natlist(rec["sel"]), C.natlist(case["low"]), C.zmat(X), C.zlist(y),
                ";\n   ".join(out), args, ("\n ++ dist_found_oks " + args) if with_found else ""))
     npts = len(obs)
-    return txt, dict(spec=spec, chain=(d == 1), atol=atol, npts=npts,
+    return txt, dict(spec=spec, chain=(d == 1), atol=atol, npts=npts, skipped_ill=len(qrows) - len(qkeep),
                      nverdicts=3 + (1 + npts) * (2 if with_found else 1), sub=sub)
 
 
@@ -267,14 +305,14 @@ CHECK_NAMES = ["(M) model selection on observed facets", "(S) specification lowe
 
 def run(ctx):
     po = C.proof_obligations(ctx.prop)
-    ngroups = 100 if ctx.quick else 1300
+    ngroups = 100 if ctx.quick else 1000
     groups, fits, recs, gid = [], [], [], []
     stats = dict(hull_dims={}, variants={}, ykinds={}, n_hist={}, extra_cols={}, tol={},
-                 rejected_degenerate_draws=0, errors=0, queries={}, spec_checked=0, chain_checked=0, distance_points=0,
+                 rejected_degenerate_draws=0, errors=0, queries={}, spec_checked=0, chain_checked=0, distance_points=0, ill_conditioned_queries_skipped=0,
                  max_chain_n=0, train_below_tol_within_noise=0, interp_node_residual=0.0,
                  contract=dict(h1=0.0, h2=0.0, h3=0.0, min_abs_ny=1.0), sfm_model_mismatch=0)
     for g in range(ngroups):
-        fs_ = gen_group(ctx.rng, ctx.quick)
+        fs_ = witness_group() if g == 0 else gen_group(ctx.rng, ctx.quick)
         rs_ = [run_impl(c) for c in fs_]
         groups.append((len(fits), len(fs_)))
         for c, r in zip(fs_, rs_):
@@ -319,6 +357,7 @@ def run(ctx):
         stats["spec_checked"] += infos[i]["spec"]
         stats["chain_checked"] += infos[i]["chain"]
         stats["distance_points"] += infos[i]["npts"]
+        stats["ill_conditioned_queries_skipped"] += infos[i]["skipped_ill"]
         if infos[i]["chain"]:
             stats["max_chain_n"] = max(stats["max_chain_n"], fits[i]["n"])
         if cur and cur_sz + len(texts[i]) > 250000:
